@@ -291,18 +291,30 @@ def print_routine(r: list, st: Style, out: list[str]) -> None:
     out.append("}")
 
 
-def print_prog(p: list, st: Style | None = None, imports: list[str] | None = None) -> str:
+def print_prog(p: list, st: Style | None = None, imports: list[str] | None = None, mix: Any = None) -> str:
+    """macro definitions first, then the routines; with mix (a random.Random) the two kinds of definition are
+    interleaved at random, each kind keeping its own order (the grammar allows (macrodef | funcdef)* )"""
     st = st or Style()
     out: list[str] = []
     for imp in imports or []:
         out.append(f'import "{imp}";')
     _, macros, routines = p
-    for m in macros:
-        out.append(f"macro {m[1]}({', '.join(m[2])}) {{")
-        print_stmts(m[3], 1, st, out)
-        out.append("}")
-    for r in routines:
-        print_routine(r, st, out)
+    defs = [("m", m) for m in macros] + [("r", r) for r in routines]
+    if mix is not None:
+        ms, rs = list(macros), list(routines)
+        defs = []
+        while ms or rs:
+            if ms and (not rs or mix.random() < 0.5):
+                defs.append(("m", ms.pop(0)))
+            else:
+                defs.append(("r", rs.pop(0)))
+    for kind, d in defs:
+        if kind == "m":
+            out.append(f"macro {d[1]}({', '.join(d[2])}) {{")
+            print_stmts(d[3], 1, st, out)
+            out.append("}")
+        else:
+            print_routine(d, st, out)
     return "\n".join(out) + "\n"
 
 
